@@ -31,6 +31,15 @@ calls a frame-writing or frame-reading method of the underlying connection: ever
 `wsConn_lockset` covers -/
 theorem wire_calls_only_in_methods : wsConn_outside_wire = [] := by decide
 
+/-- the admission gate of `CloseWithMsg` is the pair the policy puts under `closeLock`: the `Closed()` test and the
+clearing of the Open bit (both are nodes of the graph, so `wsConn_lockset` demands `closeLock` around each) … -/
+theorem close_gate_sites : wsConn_gate_closeGate = ["CloseWithMsg:Closed", "CloseWithMsg:unsetConnState"] := by decide
+/-- … and that of `Listen` the pair under `listenLock` -/
+theorem listen_gate_sites : wsConn_gate_listenGate = ["Listen:hasConnState", "Listen:setConnState"] := by decide
+/-- the state word is only ever changed by setting or clearing bits inside one `stateLock` section: no method stores a
+whole value computed from an earlier snapshot -/
+theorem connState_no_plain_store : wsConn_plainstore_connState = [] := by decide
+
 /-! protocol constants of the source equal the model's -/
 theorem const_size : Consts.OptSize = kSize := by decide
 theorem const_chunk : Consts.OptChunk = kChunk := by decide
